@@ -681,12 +681,12 @@ type task =
 | TDelayed of nat * nat * bool
 
 type ptok = { p_idle : (nat * n) list; p_waiting : (nat * bool) list;
-              p_marker : bool }
+              p_marker : nat option }
 
 (** val empty_tok : ptok **)
 
 let empty_tok =
-  { p_idle = []; p_waiting = []; p_marker = false }
+  { p_idle = []; p_waiting = []; p_marker = None }
 
 type config = { g_pool : bool; g_timeout : n option; g_max_idle : nat;
                 g_cont : bool; g_uris : key option list }
@@ -848,7 +848,7 @@ let set_idle v p =
 let set_waiting v p =
   { p_idle = p.p_idle; p_waiting = v; p_marker = p.p_marker }
 
-(** val set_marker : bool -> ptok -> ptok **)
+(** val set_marker : nat option -> ptok -> ptok **)
 
 let set_marker v p =
   { p_idle = p.p_idle; p_waiting = p.p_waiting; p_marker = v }
@@ -1048,7 +1048,7 @@ let rec walk_waiters t c share ws s =
 (** val pool_push : nat -> nat -> nat -> state -> state **)
 
 let pool_push max_idle t c s =
-  let s0 = if share_of s c then upd_tok t (set_marker false) s else s in
+  let s0 = if share_of s c then upd_tok t (set_marker None) s else s in
   let (p, s1) = walk_waiters t c (share_of s0 c) (get_tok s0 t).p_waiting s0
   in
   let (rest, moved) = p in
@@ -1088,14 +1088,17 @@ let rec release_pending ws s =
     else let (rest', s') = release_pending rest s in
          (((w, pending) :: rest'), s')
 
-(** val pool_cancel : nat -> state -> state **)
+(** val pool_cancel : nat -> nat -> state -> state **)
 
-let pool_cancel t s =
-  if (get_tok s t).p_marker
-  then let s0 = upd_tok t (set_marker false) s in
-       let (rest, s1) = release_pending (get_tok s0 t).p_waiting s0 in
-       upd_tok t (set_waiting rest) s1
-  else s
+let pool_cancel t rid s =
+  match (get_tok s t).p_marker with
+  | Some o ->
+    if Nat.eqb o rid
+    then let s0 = upd_tok t (set_marker None) s in
+         let (rest, s1) = release_pending (get_tok s0 t).p_waiting s0 in
+         upd_tok t (set_waiting rest) s1
+    else s
+  | None -> s
 
 (** val drop_all : (nat * n) list -> state -> state **)
 
@@ -1303,7 +1306,7 @@ let checkout_drop cfg rid ck s =
   let s1 =
     if delayed
     then spawn (TDelayed (rid, t, ck.k_owner)) s0
-    else if (&&) has_pool ck.k_owner then pool_cancel t s0 else s0
+    else if (&&) has_pool ck.k_owner then pool_cancel t rid s0 else s0
   in
   let (_, s2) = rx_drop ck s1 in
   (match ck.k_inner with
@@ -1353,7 +1356,11 @@ let do_issue cfg u p s =
                { d_stage = DGone; d_proto = p; d_key = k; d_uri = (Some k);
                d_polled = None } s2
            | None ->
-             let pending = (get_tok s2 t).p_marker in
+             let pending =
+               match (get_tok s2 t).p_marker with
+               | Some _ -> true
+               | None -> false
+             in
              let s3 =
                upd_tok t (fun q ->
                  set_waiting (app q.p_waiting ((rid, pending) :: [])) q) s2
@@ -1366,7 +1373,8 @@ let do_issue cfg u p s =
              else let own = match p with
                             | H1 -> false
                             | H2 -> true in
-                  let s4 = if own then upd_tok t (set_marker true) s3 else s3
+                  let s4 =
+                    if own then upd_tok t (set_marker (Some rid)) s3 else s3
                   in
                   add0 (RCheckout
                     (new_ck t WIdle
@@ -1560,14 +1568,14 @@ let run_task cfg tid s =
              let (p, s1) = register cfg t c s0 in
              let s2 =
                if (&&) ((&&) cfg.g_pool (negb (Nat.eqb t O))) own
-               then pool_cancel t s1
+               then pool_cancel t rid s1
                else s1
              in
              pooled_drop p (finish_task tid s2)
            | Inr _ ->
              let s1 =
                if (&&) ((&&) cfg.g_pool (negb (Nat.eqb t O))) own
-               then pool_cancel t s0
+               then pool_cancel t rid s0
                else s0
              in
              finish_task tid s1)))
@@ -1618,14 +1626,17 @@ let rec snaps_from s t = function
 | [] -> []
 | p :: rest ->
   let live = count_live s p.p_waiting in
+  let mk = match p.p_marker with
+           | Some _ -> true
+           | None -> false in
   let sn = { sn_token = t; sn_idle = (map fst p.p_idle); sn_live = live;
-    sn_closed = (sub (length p.p_waiting) live); sn_marker = p.p_marker }
+    sn_closed = (sub (length p.p_waiting) live); sn_marker = mk }
   in
   let tail = snaps_from s (S t) rest in
   (match p.p_idle with
    | [] ->
      (match p.p_waiting with
-      | [] -> if p.p_marker then sn :: tail else tail
+      | [] -> if mk then sn :: tail else tail
       | _ :: _ -> sn :: tail)
    | _ :: _ -> sn :: tail)
 
@@ -2340,25 +2351,26 @@ let share_conn_since m k i =
     (&&) ((&&) y.ci_share (Nat.leb i y.ci_new_at)) (same_key (conn_key m c) k))
     (combine (seq O (length m.m_conns)) m.m_conns)
 
-(** val h2_flying : config -> mst -> nat -> key option -> bool **)
+(** val h2_flying : bool -> config -> mst -> nat -> key option -> bool **)
 
-let h2_flying cfg m r k =
+let h2_flying d6 cfg m r k =
   existsb (fun ix ->
     let (i, x) = ix in
     (&&)
       ((&&)
         ((&&)
-          ((&&) ((&&) (negb (Nat.eqb i r)) (same_key x.ri_key k))
-            (match x.ri_proto with
-             | H1 -> false
-             | H2 -> true))
-          (match x.ri_dial with
-           | DsFlying ->
-             (match x.ri_resolved with
-              | Some _ -> false
-              | None -> true)
-           | _ -> false)) ((||) (is_live x) cfg.g_cont))
-      (negb (share_conn_since m k x.ri_at)))
+          ((&&)
+            ((&&) ((&&) (negb (Nat.eqb i r)) (same_key x.ri_key k))
+              (match x.ri_proto with
+               | H1 -> false
+               | H2 -> true))
+            (match x.ri_dial with
+             | DsFlying ->
+               (match x.ri_resolved with
+                | Some _ -> false
+                | None -> true)
+             | _ -> false)) ((||) (is_live x) cfg.g_cont))
+        (negb (share_conn_since m k x.ri_at))) ((||) d6 (negb x.ri_d6)))
     (combine (seq O (length m.m_reqs)) m.m_reqs)
 
 (** val chk_ev_C04 : bool -> config -> opobs -> mst -> ev -> bool **)
@@ -2373,7 +2385,7 @@ let chk_ev_C04 d6 cfg ob m = function
               (negb
                 (match x.ri_proto with
                  | H1 -> false
-                 | H2 -> h2_flying cfg m r x.ri_key)))
+                 | H2 -> h2_flying d6 cfg m r x.ri_key)))
             (negb ((&&) d6 (h2_handle_out m r x.ri_key)))
      else true
    | None -> false)
